@@ -191,7 +191,7 @@ impl TcpListener {
     let mut final_error_for_actor_stopping: Option<ZmqError> = None;
 
     let mut actor_drop_guard = ActorDropGuard::new(
-      self.context,
+      self.context.clone(),
       listener_cmd_loop_handle,
       ActorType::Listener,
       Some(endpoint_uri_clone_log.clone()),
@@ -215,8 +215,12 @@ impl TcpListener {
               Ok(_) => {}
               Err(broadcast::error::RecvError::Lagged(n)) => {
                 tracing::warn!(handle = listener_cmd_loop_handle, uri = %endpoint_uri_clone_log, skipped = n, "System event bus lagged!");
-                self.listener_handle.abort();
-                final_error_for_actor_stopping = Some(ZmqError::Internal("Listener event bus lagged".into())); break;
+                // keep listening unless a close / term was among the skipped events
+                if !self.socket_logic.core().is_running()
+                  || self.context.inner().shutdown_initiated.load(std::sync::atomic::Ordering::Acquire)
+                {
+                  self.listener_handle.abort(); break;
+                }
               }
               Err(broadcast::error::RecvError::Closed) => {
                 tracing::error!(handle = listener_cmd_loop_handle, uri = %endpoint_uri_clone_log, "System event bus closed unexpectedly!");
